@@ -2,6 +2,7 @@ import Lean.Data.Json
 import Verif.Model.Await
 import Verif.Gen.Errors
 open Lean
+-- DRIVER: await
 namespace Verif.Drv.Await
 open Verif.Model.Await
 
